@@ -312,8 +312,8 @@ func runHist(w *world, in histIn) (out histOut) {
 		case "sleep":
 			time.Sleep(time.Duration(st.Ms) * time.Millisecond)
 		case "setm":
-			if mstate[st.M] == "missing" {
-				panic("generator: setm after delete")
+			if mstate[st.M] == "missing" || strings.HasPrefix(mstate[st.M], "aged-") {
+				panic("generator: setm after delete / after the main record aged out")
 			}
 			m, err := w.fx.Cloud.GetPortMapping(maps[st.M].ID)
 			must(err)
@@ -321,6 +321,15 @@ func runHist(w *world, in histIn) (out histOut) {
 			switch st.State {
 			case "active":
 				must(w.fx.Cloud.UpdatePortMapping(m))
+			case "aged-revoked", "aged-inactive":
+				// the mapping is revoked / deactivated and then left alone until its MAIN record reaches its TTL (DefaultMappingDataTTL):
+				// storage drops that key while the index lists (which hold the copy written at creation) never expire.
+				// No fault involved: this is what time does to a mapping nobody touches any more.
+				setMappingState(w, m, strings.TrimPrefix(st.State, "aged-"))
+				must(w.gate.FullStorage.Delete("tunnox:port_mapping:" + m.ID))
+				if _, err := w.gate.FullStorage.Get("tunnox:port_mapping:" + m.ID); err == nil {
+					panic("harness: the main record of the mapping is still there (key layout changed?)")
+				}
 			default:
 				setMappingState(w, m, st.State)
 			}
